@@ -289,7 +289,7 @@ var linkPool = []string{"https://x.test/plain", "https://x.test/a b c", "https:/
 	"-rf", "--help", "%url", "%mimetype", "https://x.test/;rm -rf ~", "https://x.test/a|b&c", "https://x.test/%url", "https://x.test/a\nb", "https://x.test/*?[]", "relative/path",
 	"mailto:someone@x.test", "https://x.test/ünï", "https://x.test/" + strings.Repeat("long", 1500), "javascript:alert(1)", "https://x.test/$HOME/${IFS}", "https://x.test/\\n\\0"}
 
-var mtPool = []string{"image/%url", "%subtype/png", "%url/%mimetype", "video/%supertype", "", "image/png", "video/mp4", "audio/ogg", "text/html; charset=utf-8", "application/x-weird+thing", "image/*", "IMAGE/PNG"}
+var mtPool = []string{"png", "/png", "image/", "not a media type", "image/%url", "%subtype/png", "%url/%mimetype", "video/%supertype", "", "image/png", "video/mp4", "audio/ogg", "text/html; charset=utf-8", "application/x-weird+thing", "image/*", "IMAGE/PNG"}
 
 func genAtt(t *rapid.T, types []string) Att {
 	return Att{Type: rapid.SampledFrom(types).Draw(t, "atttype"), URL: rapid.SampledFrom(linkPool).Draw(t, "atturl"), MediaType: rapid.SampledFrom(mtPool).Draw(t, "attmt")}
@@ -322,4 +322,59 @@ func gen(t *rapid.T) Case {
 }
 
 func TestProp(t *testing.T)   { vrep.Run(t, "Prop", true, gen, check) }
-func TestReplay(t *testing.T) { vrep.Replay(t, "Prop", check) }
+func TestReplay(t *testing.T) {
+	switch vrep.ReplayCheckName() {
+	case "ConfigHook":
+		vrep.Replay(t, "ConfigHook", checkHookFile)
+	default:
+		vrep.Replay(t, "Prop", check)
+	}
+}
+
+
+// ConfigHook: the configured argv is what the configuration file says, string for string (nothing is expanded,
+// split or trimmed when the file is loaded).
+type HookFile struct {
+	Hook []string `json:"hook"`
+}
+
+func checkHookFile(c HookFile) vrep.Result {
+	dir, err := os.MkdirTemp(os.Getenv("VERIF_BASE"), "c20cfg-")
+	if err != nil {
+		return vrep.Fail("harness: %v", err)
+	}
+	defer os.RemoveAll(dir)
+	quoted := make([]string, len(c.Hook))
+	for i, a := range c.Hook {
+		b, _ := json.Marshal(a) // a JSON string literal is a valid TOML basic string for these characters
+		quoted[i] = string(b)
+	}
+	path := filepath.Join(dir, "config.toml")
+	os.WriteFile(path, []byte("[media]\nhook = ["+strings.Join(quoted, ", ")+"]\n"), 0o644)
+	parsed, err := config.VerifParse(path)
+	if err != nil {
+		return vrep.Fail("a hook of %d plain strings was rejected: %v", len(c.Hook), err)
+	}
+	if !reflect.DeepEqual(parsed.Media.Hook, c.Hook) {
+		return vrep.Fail("configured hook %q was loaded as %q", c.Hook, parsed.Media.Hook)
+	}
+	dollar := false
+	for _, a := range c.Hook {
+		if strings.ContainsAny(a, "$~%") {
+			dollar = true
+		}
+	}
+	return vrep.Result{Classes: []string{fmt.Sprintf("args:%d", len(c.Hook))}, Nontrivial: dollar}
+}
+
+var hookArgPool = []string{"sh", "-c", "mpv \"$1\"", "$BROWSER", "${HOME}/bin/open", "$$", "$1", "$@", "~/bin/x", "%url", "%mimetype", " padded ", "tab\tinside", "a b", "", "--flag=%url", "`id`", "$(id)", "$", "ünï", "'q'"}
+
+func genHookFile(t *rapid.T) HookFile {
+	c := HookFile{Hook: []string{rapid.SampledFrom([]string{"rec", "sh", "xdg-open", "/usr/bin/env", "$BROWSER"}).Draw(t, "prog")}}
+	for n := rapid.IntRange(0, 6).Draw(t, "nargs"); n > 0; n-- {
+		c.Hook = append(c.Hook, rapid.SampledFrom(hookArgPool).Draw(t, "arg"))
+	}
+	return c
+}
+
+func TestConfigHook(t *testing.T) { vrep.Run(t, "ConfigHook", false, genHookFile, checkHookFile) }
